@@ -5129,7 +5129,7 @@ def h_axis_through_record(meth, axis, nfields=1, outer=(2, 1)):
 
 
 def jobs_axis_through_record(tier, meths):
-    js = []
+    js = [(h_axis_through_union, (m_,), 1800) for m_ in meths if m_ in ('num', 'localindex')]
     for m_ in meths:
         if tier == 'quick':
             js += [(h_axis_through_record, (m_, -1, 2), 1800), (h_axis_through_record, (m_, 2, 1), 1800)]
@@ -5578,3 +5578,66 @@ def jobs_numpy_toregular(tier):
     if tier != 'quick':
         q += [(0,), (0, 2), (2, 0), (0, 2, 3), (2, 2, 3, 0), (3, 2, 0, 2), (1, 1, 1), (2, 2, 2), (3, 1, 0)]
     return [(h_numpy_toregular, (s_,), 1800) for s_ in q]
+
+
+@guard
+def h_axis_through_union(meth):
+    """num / localindex(axis=-1) of a list of union-type entries whose two contents differ in depth (lists of numbers, lists of lists of
+    numbers): a negative axis counts from the leaves of *each* branch, so the answer addresses the innermost lists of either content - for the
+    first content these are its own lists, for the second the request goes one level further down"""
+    nc = NodeCtx(['LOA', 'UNI', 'NA', 'IA', 'RA', 'IDX', 'CNT', 'UTL', 'KD', 'IDS'], [], unwind=24)
+    frag = {'num': '3numEll', 'localindex': '10localindexEll'}[meth]
+    F = nc.derived_stub(frag, meth)
+    kk = z3.BitVec('k!', 64)
+    BASE = 1 << 32
+    leafA, lenA = nc.content0, nc.lencontent
+    lenB = nc.m.bv('lenleafB')
+    nc.m.assume(lenB <= 2 ** 20)
+    leafB = nc.new_content_in(nc.m.mem, 'leafB', lenB, z3.Lambda([kk], kk + BASE), const=True)
+
+    nc.m.eng.stubs.update(string_stubs(nc))
+    # num answers a union of counts (numbers) and lists of counts: simplify_uniontype asks whether they merge - numbers and lists do not
+    nc.m.eng.stubs['_ZNK7awkward10NumpyArray9mergeableE*'] = lambda eng, fr, ins, st, name, argv: z3.BitVecVal(0, 1)
+    nc.m.eng.stubs['_ZNK7awkward17ListOffsetArrayOfIlE9mergeableE*'] = lambda eng, fr, ins, st, name, argv: z3.BitVecVal(0, 1)
+
+    def depth_of(selfp, st, eng):        # leaf A holds numbers (depth 1), leaf B holds lists of numbers (depth 2)
+        return 2 if nc.content_info(selfp, st, eng)[0] == 'leafB' else 1
+    nc.m.eng.stubs['vf$slot%d' % nc.slot('14purelist_depthEv')] = lambda eng, fr, ins, st, name, argv: BV(depth_of(argv[0], st, eng))
+    nc.m.eng.stubs['vf$slot%d' % nc.slot('12minmax_depthEv')] = lambda eng, fr, ins, st, name, argv: [BV(depth_of(argv[0], st, eng))] * 2
+    nc.m.eng.stubs['vf$slot%d' % nc.slot('12branch_depthEv')] = lambda eng, fr, ins, st, name, argv: [z3.BitVecVal(0, 8), BV(depth_of(argv[0], st, eng))]
+    listA, listsA, offsA = build_listoffset64(nc, [2, 1], name='listA')
+    nc.content0, nc.lencontent = leafB, lenB
+    listB, listsB, offsB = build_listoffset64(nc, [2], name='listB')
+    listsB = [[Elem(z3.simplify(e.val + BASE)) for e in lst] for lst in listsB]
+    tags_c, index_c = (0, 1, 0), (0, 0, 1)
+    union, idx = build_union8_64(nc, tags_c, [listA, listB], 'uni', [BV(2), BV(1)])
+    for t, v in zip(idx, index_c):
+        nc.m.assume(t == v)
+    nc.content0, nc.lencontent = union, BV(3)
+    this, lists_out, offs_out = build_listoffset64(nc, [2, 1], name='node')
+    nc.content0, nc.lencontent = leafA, lenA
+    nc.m.record('ret', {})
+    out = nc.m.call('_ZNK7awkward17ListOffsetArrayOfIlE' + frag, [Ptr('ret', 0), this, BV(-1), BV(0)])
+    obls = [('%s(axis=-1) does not raise' % meth, out.raised)]
+    calls = [(pc, a) for pc, nm, a in out.trace if nm == meth]
+    obls.append(('the deeper content is asked one level further down', z3.Not(z3.Or([pc for pc, _ in calls] + [z3.BoolVal(False)]))))
+
+    def per_list(lst):
+        return Elem(BV(len(lst))) if meth == 'num' else [Elem(BV(j)) for j in range(len(lst))]
+    entryB = [Elem(F(e.val - BASE + BASE)) for e in listsB[0]]
+    entries = [per_list(listsA[0]), entryB, per_list(listsA[1])]
+    want = [entries[:2], entries[2:]]
+    for g, res in nodeh.decode_cases(nc, out.mem, nc.m.cell('ret', 0)):
+        if res is None:
+            obls.append(('a result is returned', z3.And(g, z3.Not(out.raised))))
+        else:
+            obls += [(nm, z3.And(g, c)) for nm, c in nodeh.compare_value(res, want)]
+
+    def replay(model, ent):
+        # A = [[1, 2], [3]]; B = [[[4, 5], [6]]]; union entries A[0], B[0], A[1]; outer lists of 2 and 1 entries
+        prog = ('i64 3 1 2 3 listoffset64 3 0 2 3 i64 3 4 5 6 listoffset64 3 0 2 3 listoffset64 2 0 2 '
+                'union8_64 3 0 1 0 0 0 1 2 listoffset64 3 0 2 3 %s -1' % meth)
+        exp = [[2, [2, 1]], [1]] if meth == 'num' else [[[0, 1], [[0, 1], [0]]], [[0]]]
+        return akrun_check(prog, exp, '%s(axis=-1) of [[[1, 2], [[4, 5], [6]]], [[3]]] (union of lists and lists of lists)' % meth)
+    return mdischarge(nc.m, 'list[union[list, list[list]]]::%s axis=-1' % meth, obls, [], replay=replay, prefer=[lenA <= 8, lenB <= 8],
+                      extra=dict(bounds='one fixed shape: outer lists (2, 1), union tags (0, 1, 0), contents with lists (2, 1) and (2,); origins and leaf lengths symbolic'))
